@@ -16,7 +16,7 @@ from .ops import GuardB, mkstr, mkseq, to_zstr, canon, subst
 from .path import Path, explore, fresh_name
 from .sorts import SortReg, TypeDesc, ANY
 from .values import (Atomic, ModuleV, ClassV, BuiltinClass, FuncV, PropV, BoundMethod, BuiltinFn, EnumV,
-                     ObjV, DtV, RecV, StrT, JoinT, LitB, CompB, RangeB, SeqT, SeqV, SetV, DictV, ExcV,
+                     ObjV, DtV, RecV, JUnionV, StrT, JoinT, LitB, CompB, RangeB, SeqT, SeqV, SetV, DictV, ExcV,
                      RaiseSignal, ReturnSignal, BreakSignal, ContinueSignal, Infeasible, Unsupported, FrameViolation,
                      is_z3, is_sym_bool)
 
@@ -273,6 +273,8 @@ class Interp:
         return None
 
     def isinstance_(self, v, t, path):
+        if isinstance(v, JUnionV):
+            v = self.narrow_json(v, path)
         if isinstance(t, tuple):
             res = False
             for x in t:
@@ -651,7 +653,7 @@ class Interp:
             return to_zstr(v)
         if is_z3(v):
             return v
-        if isinstance(v, (DtV, RecV)):
+        if isinstance(v, (DtV, RecV, JUnionV)):
             return v.expr
         if isinstance(v, EnumV):
             return self.sorts.enum_const(v)
@@ -716,6 +718,8 @@ class Interp:
             v = RecV(td.args[0], expr)
             self.apply_rec_invs(v, path)
             return v
+        if k == 'junion':
+            return JUnionV(td.args[0], expr)
         if k == 'list':
             return SeqV(self.seq_of_base(expr, td.args[0], path), frozen=True)
         if k == 'opt':
@@ -748,6 +752,8 @@ class Interp:
             return UnionV(td.args[0], expr)
         if k == 'rec':
             return RecV(td.args[0], expr)
+        if k == 'junion':
+            return JUnionV(td.args[0], expr)
         return OpaqueV(expr, 'elem')
 
     def apply_class_invs(self, v: DtV, path):
@@ -870,6 +876,21 @@ class Interp:
             return self.wrap(inner, acc(obj.expr), path)
         acc = self.sorts.accessor(obj.cls, fname)
         return self.wrap(td, acc(obj.expr), path)
+
+    def narrow_json(self, v, path):
+        """decide the variant of a JSON union value (forks once per variant; later calls follow the path condition)"""
+        while isinstance(v, JUnionV):
+            vs = v.uni.variants
+            nv = None
+            for (rec, make) in vs[:-1]:
+                if path.branch(rec(v.expr)):
+                    nv = make(self, v.expr, path)
+                    break
+            if nv is None:
+                path.define(vs[-1][0](v.expr))
+                nv = vs[-1][1](self, v.expr, path)
+            v = nv
+        return v
 
     # ---- typed JSON objects ----------------------------------------------------------------------------
     def rec_present(self, r: RecV, key):
@@ -1304,6 +1325,8 @@ class Interp:
             if not isinstance(item, (str, StrT)):
                 return False
             return z3.IsMember(to_zstr(item), container.sym)
+        if isinstance(container, JUnionV):
+            container = self.narrow_json(container, path)
         if isinstance(container, RecV):
             return self.rec_has_key(container, item, path)
         if isinstance(container, DictV):
